@@ -25,6 +25,11 @@ type Plan struct {
 	Windows   bool   `json:"windows"`   // canonical timing classes (in phase / first block after)
 	AccuseAny bool   `json:"accuseAny"` // Byzantine accusations/apologies may name Byzantine keypers too
 	MaxReload int    `json:"maxReload"` // honest keypers that re-create their in-memory state once during the run
+	Timely    bool   `json:"timely"`    // honest messages are never late
+	ReloadMax int    `json:"reloadMax"` // exhaustive plans: last block in which a reload may happen (0 = 2*PhaseLen)
+	Focus     string `json:"focus"`     // "" = all Byzantine message kinds; "apol"; "late"
+	Mixed     bool   `json:"mixed"`     // out-of-range apology entries and reversed entry order
+	Repeat    int    `json:"repeat"`    // replay every behaviour that often (map-iteration order of the real code is sampled)
 	MaxLag    int    `json:"maxLag"`    // "lag" ops: an honest keyper skips a sync and catches up on several blocks later
 	Simulate  int    `json:"simulate"`  // >0: random behaviours instead of exhaustive search
 	MaxBeh    int    `json:"maxBeh"`    // replay at most that many behaviours (0 = all)
@@ -49,10 +54,24 @@ func (p Plan) mcFiles() (string, map[string][]byte, string) {
 	mod := "MCgen_dkg_" + strings.ReplaceAll(p.Name, "-", "_")
 	body := fmt.Sprintf("---- MODULE %s ----\nEXTENDS DKGMC\ncByz == %s\n====\n", mod, setText(p.Cfg.Byz))
 	inv := "INVARIANT C07_Spec\nINVARIANT Agreement\nINVARIANT EmitFinal\n"
-	cfg := fmt.Sprintf("CONSTANTS\n N = %d\n T = %d\n Byz <- cByz\n PhaseLen = %d\n MaxRej = %d\n Emit = TRUE\n AccuseAny = %s\n Windows = %s\n Partial = %s\n MaxReload = %d\n MaxLag = %d\n Overlap = %s\n"+
+	cfg := fmt.Sprintf("CONSTANTS\n N = %d\n T = %d\n Byz <- cByz\n PhaseLen = %d\n MaxRej = %d\n Emit = TRUE\n AccuseAny = %s\n Windows = %s\n Partial = %s\n MaxReload = %d\n MaxLag = %d\n Overlap = %d\n Timely = %s\n ReloadMax = %d\n Focus = %q\n Mixed = %s\n"+
 		"SPECIFICATION Spec\n%sVIEW View\nCHECK_DEADLOCK FALSE\n",
-		p.Cfg.N, p.Cfg.T, p.Cfg.PhaseLen, p.MaxRej, boolText(p.AccuseAny), boolText(p.Windows), boolText(p.Partial), p.MaxReload, p.MaxLag, boolText(p.Cfg.Overlap), inv)
+		p.Cfg.N, p.Cfg.T, p.Cfg.PhaseLen, p.MaxRej, boolText(p.AccuseAny), boolText(p.Windows), boolText(p.Partial), p.MaxReload, p.MaxLag, p.Cfg.Ov(), boolText(p.Timely), p.reloadMax(), p.focus(), boolText(p.Mixed), inv)
 	return mod, map[string][]byte{mod + ".tla": []byte(body)}, cfg
+}
+
+func (p Plan) reloadMax() int {
+	if p.ReloadMax > 0 {
+		return p.ReloadMax
+	}
+	return 2 * p.Cfg.PhaseLen
+}
+
+func (p Plan) focus() string {
+	if p.Focus == "" {
+		return "all"
+	}
+	return p.Focus
 }
 
 func (p Plan) trFiles(trace []byte) (string, map[string][]byte, string) {
@@ -328,6 +347,24 @@ func pick(c *core.Ctx, g *Gen) [][]int {
 func ReplayAndValidate(c *core.Ctx, g *Gen) (*Outcome, error) {
 	out := &Outcome{Gen: g, runs: map[int]*RunResult{}}
 	beh := pick(c, g)
+	if g.Plan.Repeat > 1 {
+		// the flagged behaviours are repeated (the map-iteration order of the real code is sampled)
+		flagged := map[string]bool{}
+		for _, b := range g.Live {
+			flagged[fmt.Sprint(b)] = true
+		}
+		var rb [][]int
+		for _, b := range beh {
+			n := 1
+			if flagged[fmt.Sprint(b)] {
+				n = g.Plan.Repeat
+			}
+			for r := 0; r < n; r++ {
+				rb = append(rb, b)
+			}
+		}
+		beh = rb
+	}
 	workers := c.Workers
 	if workers > 8 {
 		workers = 8
@@ -460,7 +497,13 @@ func plansC07(thorough bool) []Plan {
 		return []Plan{
 			{Name: "n3-honest", Cfg: Cfg{N: 3, T: 2, Byz: []int{}, PhaseLen: 2, Overlap: true}, Windows: true, MaxReload: 1, MaxBeh: 40},
 			{Name: "n3-byz3", Cfg: Cfg{N: 3, T: 2, Byz: []int{3}, PhaseLen: 2}, Windows: true, MaxBeh: 140},
-			{Name: "n3-sim", Cfg: Cfg{N: 3, T: 2, Byz: []int{2}, PhaseLen: 3, Overlap: true}, Partial: true, MaxRej: 2, AccuseAny: true, MaxReload: 2, MaxLag: 3, Simulate: 16},
+			// mixed apologies (a correct entry next to an out-of-range one, either order) with a reload in any
+			// block up to the last apologising one; honest messages in time
+			{Name: "n3-byz3-apol", Cfg: Cfg{N: 3, T: 2, Byz: []int{3}, PhaseLen: 2}, Windows: true, Partial: true, Timely: true, Focus: "apol", Mixed: true, MaxReload: 1, ReloadMax: 6, MaxBeh: 100},
+			// the previous eon is finalised in the block in which this eon goes from dealing to accusing;
+			// Byzantine messages in the last block of / the first block after their phase
+			{Name: "n3-byz3-aligned", Cfg: Cfg{N: 3, T: 2, Byz: []int{3}, PhaseLen: 2, Overlap: true, OvBlock: 2}, Windows: true, Partial: true, Timely: true, Focus: "late", Repeat: 12},
+			{Name: "n3-sim", Cfg: Cfg{N: 3, T: 2, Byz: []int{2}, PhaseLen: 3, Overlap: true}, Partial: true, MaxRej: 2, AccuseAny: true, MaxReload: 2, MaxLag: 3, Mixed: true, Simulate: 16},
 			{Name: "n4-sim", Cfg: Cfg{N: 4, T: 2, Byz: []int{2, 4}, PhaseLen: 2}, Partial: true, MaxRej: 2, AccuseAny: true, MaxReload: 2, MaxLag: 3, Simulate: 20},
 		}
 	}
@@ -470,7 +513,10 @@ func plansC07(thorough bool) []Plan {
 		{Name: "n3-byz3", Cfg: Cfg{N: 3, T: 2, Byz: []int{3}, PhaseLen: 2}, Windows: true, Partial: true, MaxBeh: 3000},
 		{Name: "n3-byz1-rej", Cfg: Cfg{N: 3, T: 2, Byz: []int{1}, PhaseLen: 2}, Windows: true, MaxRej: 1, MaxBeh: 1500},
 		{Name: "n3-t3", Cfg: Cfg{N: 3, T: 3, Byz: []int{}, PhaseLen: 2}, Windows: true, MaxBeh: 200},
-		{Name: "n3-sim", Cfg: Cfg{N: 3, T: 2, Byz: []int{2}, PhaseLen: 3, Overlap: true}, Partial: true, MaxRej: 2, AccuseAny: true, MaxReload: 2, MaxLag: 3, Simulate: 400},
+		{Name: "n3-byz3-apol", Cfg: Cfg{N: 3, T: 2, Byz: []int{3}, PhaseLen: 2}, Windows: true, Partial: true, Timely: true, Focus: "apol", Mixed: true, MaxReload: 1, ReloadMax: 6, MaxBeh: 1500},
+		{Name: "n3-byz3-aligned", Cfg: Cfg{N: 3, T: 2, Byz: []int{3}, PhaseLen: 2, Overlap: true, OvBlock: 2}, Windows: true, Partial: true, Timely: true, Focus: "late", MaxBeh: 400, Repeat: 12},
+		{Name: "n3-byz3-aligned3", Cfg: Cfg{N: 3, T: 2, Byz: []int{3}, PhaseLen: 3, Overlap: true, OvBlock: 3}, Windows: true, Timely: true, Focus: "late", MaxBeh: 300, Repeat: 8},
+		{Name: "n3-sim", Cfg: Cfg{N: 3, T: 2, Byz: []int{2}, PhaseLen: 3, Overlap: true}, Partial: true, MaxRej: 2, AccuseAny: true, MaxReload: 2, MaxLag: 3, Mixed: true, Simulate: 400},
 		{Name: "n4-sim", Cfg: Cfg{N: 4, T: 2, Byz: []int{2, 4}, PhaseLen: 2}, Partial: true, MaxRej: 2, AccuseAny: true, MaxReload: 2, MaxLag: 3, Simulate: 400},
 		{Name: "n4-t3-sim", Cfg: Cfg{N: 4, T: 3, Byz: []int{1}, PhaseLen: 3}, Partial: true, MaxRej: 2, AccuseAny: true, MaxReload: 2, MaxLag: 3, Simulate: 300},
 		{Name: "n5-sim", Cfg: Cfg{N: 5, T: 3, Byz: []int{1, 4}, PhaseLen: 2}, Partial: true, MaxRej: 2, AccuseAny: true, MaxReload: 2, MaxLag: 3, Simulate: 300},
